@@ -1,8 +1,12 @@
 #!/bin/bash
 # applies every kept seeded change in turn and runs the quick check of the property it breaks; prints one line each
+# usage: tools/seeded_matrix.sh [glob of seeded ids, default *] [time cap in seconds, default none]
 cd /repo || exit 2
 [ -n "$(git status --porcelain)" ] && { echo "/repo dirty"; exit 2; }
-for d in /verif/seeded/*/; do
+PAT=${1:-*}; CAP=${2:-0}; T0=$(date +%s)
+trap 'git -C /repo checkout -- . ; git -C /repo clean -fdq contracts packages 2>/dev/null' EXIT
+for d in /verif/seeded/$PAT/; do
+  if [ "$CAP" -gt 0 ] && [ $(( $(date +%s) - T0 )) -gt "$CAP" ]; then echo "time cap reached"; break; fi
   id=$(basename $d); prop=$(python3 -c "import json;print(json.load(open('$d/meta.json'))['breaks_property'])")
   git apply $d/patch.diff 2>/dev/null || { echo "$id $prop APPLY-FAILED"; git checkout -- . ; continue; }
   (cd /verif && ./check $prop --tier quick > /tmp/seeded-$id.log 2>&1); rc=$?
